@@ -1443,14 +1443,19 @@ Proof.
       * apply st_reach_refl.
 Qed.
 
-Lemma exec_queue_reach now cid q : forall st, st_reach st (fst (exec_queue now st cid q)).
+(* (the clock advances by one per executed queued command, hence the quantification over now) *)
+Lemma exec_queue_reach cid q : forall now st, st_reach st (fst (exec_queue now st cid q)).
 Proof.
-  induction q as [|cmd q IH]; intro st; simpl; [apply st_reach_refl|].
+  induction q as [|cmd q IH]; intros now st; cbn [exec_queue]; [apply st_reach_refl|].
   destruct cmd as [|name args]; [apply IH|].
-  pose proof (IH (o_st (run_plain now st cid (lower name) args true))) as H.
-  destruct (exec_queue now (o_st (run_plain now st cid (lower name) args true)) cid q) as [st' rs].
+  pose proof (IH (now + 1) (o_st (run_plain now st cid (lower name) args true))) as H.
+  destruct (exec_queue (now + 1) (o_st (run_plain now st cid (lower name) args true)) cid q) as [st' rs].
   cbn [fst] in *. eapply st_reach_trans; [apply run_plain_reach|exact H].
 Qed.
+
+(* flagging an open transaction (arity error of a control command) touches no database *)
+Lemma st_reach_flag_tx st cid c : st_reach st (flag_tx st cid c).
+Proof. unfold flag_tx. destruct (c_queue c); [apply st_reach_set_conn | apply st_reach_refl]. Qed.
 
 Theorem step_reach now st cid cmd : st_reach st (o_st (step now st cid cmd)).
 Proof.
@@ -1458,10 +1463,10 @@ Proof.
   repeat lazymatch goal with
   | |- st_reach _ (o_st (if ?b then _ else _)) => destruct b
   | |- st_reach _ (o_st (match ?x with _ => _ end)) => destruct x eqn:?
-  end; cbn [o_st]; auto using run_plain_reach with strch.
+  end; cbn [o_st]; auto using run_plain_reach, st_reach_flag_tx with strch.
   match goal with
   | H : exec_queue ?n ?s ?c ?q = (?s2, _) |- st_reach _ ?s2 =>
-      pose proof (exec_queue_reach n c q s) as Hq; rewrite H in Hq; cbn [fst] in Hq;
+      pose proof (exec_queue_reach c q n s) as Hq; rewrite H in Hq; cbn [fst] in Hq;
       eapply st_reach_trans; [|exact Hq]; auto with strch
   end.
 Qed.
